@@ -81,6 +81,28 @@ pub static PROPS: &[Prop] = &[
         stub: K_STUB,
     },
     Prop {
+        id: "C25",
+        level: "exploration",
+        parts: &[Part { scenario: "co_local", quick_runs: 150_000, thorough_runs: 3_000_000, classes: &["local-map-semantics", "local-not-private", "not-released", "double-drop", "local-op-lost", "crash", "panic-on-caller-thread"] }],
+        quick_wall_s: 40,
+        thorough_wall_s: 600,
+        rule: "histories of put/get/get_mut/remove over <=4 coroutines x 5 keys with drop-counting values, two thirds of the operations executed by the coroutine's own body (through current()) and one third through the handle, each coroutine dropped at a generated point: never started, suspended mid-body or finished; every run non-trivial by construction; distinct = distinct workload fingerprints",
+        assumptions: COMMON_ASSUME,
+        real: K_REAL,
+        stub: K_STUB,
+    },
+    Prop {
+        id: "C26",
+        level: "exploration",
+        parts: &[Part { scenario: "beans", quick_runs: 40_000, thorough_runs: 600_000, classes: &["singleton-split", "bean-panic", "deadlock", "crash", "panic-on-caller-thread"] }],
+        quick_wall_s: 45,
+        thorough_wall_s: 600,
+        rule: "fresh process per run; 2-4 threads whose first action is get_or_default or init_bean+get_bean on one of two names (then more lookups on three names), optionally each also creating a Scheduler (global queue bean) with work then submitted through one scheduler and scheduled through the other; seeded schedules with a scheduling point before every atomic and map operation; non-trivial = threads actually interleaved; distinct = distinct (workload, schedule) fingerprints",
+        assumptions: COMMON_ASSUME,
+        real: &["core/src/common/beans.rs", "core/src/scheduler.rs (Scheduler::new, submit_co, try_timed_schedule)", "queues as C03"],
+        stub: &["dashmap (shim: sharded map with simulated shard locks)", "std atomics"],
+    },
+    Prop {
         id: "C09",
         level: "exploration",
         parts: &[Part { scenario: "co_life", quick_runs: 150_000, thorough_runs: 3_000_000, classes: &["request-leak"] }],
